@@ -40,7 +40,8 @@ def run(ctx):
                     e = prod_.get(o0)
                     if e is None or not e.dyndep or e.dyndep not in g_.dd_info or e.out0 not in g_.dd_info[e.dyndep]: return False
                     ddp = prod_.get(e.dyndep)
-                    return g_.dd_info[e.dyndep][e.out0][2] and ddp is not None and ddp.out0 in ba.started
+                    # the dyndep file was not loadable at scan time: its statement ran in this build, or was wanted / not ready in the post-scan snapshot
+                    return g_.dd_info[e.dyndep][e.out0][2] and ddp is not None and (ddp.out0 in ba.started or ba.snap.get(ddp.out0, {}).get('want') in ('s', 'f') or ba.snap.get(ddp.out0, {}).get('ready') == '0')
                 roots = {o for o in extra if late_restat(o)}
                 below = set()
                 for o in roots: below |= {x.out0 for x in g_.edges if x.idx in g_.dependents_of(prod_[o])}
